@@ -7,6 +7,7 @@
 
 pub mod gate;
 pub mod image;
+pub mod probe;
 pub mod session;
 pub mod shim;
 pub mod types;
@@ -55,10 +56,36 @@ fn run_scripts(inp: &str, out: &str) {
         }
         sess.finish();
         gate::set_mode(gate::Mode::Free, 1);
-        let (evs, _fs) = shim::take_logs();
+        let (evs, fs) = shim::take_logs();
+        // post-hoc probes on the recorded FS log, merged into the trace after the position they probe
+        let mut probes: Vec<probe::ProbeOut> = vec![];
+        if v["probes"].is_object() {
+            shim::shim().quiet = true;
+            let dirkey = format!("{}.0", id);
+            let cfg = sess.first_cfg.clone().unwrap_or_default();
+            if v["probes"]["crash"].is_object() {
+                probes.extend(probe::crash_probes(&fs, &dirkey, &cfg, &v["probes"]["crash"], v["seed"].as_u64().unwrap_or(id)));
+            }
+            // let the probes' workers finish before the next run starts
+            std::thread::sleep(std::time::Duration::from_millis(2));
+            let mut s = shim::shim();
+            s.quiet = false;
+            s.events.clear();
+            s.fslog.clear();
+        }
+        let mut pi = 0usize;
+        probes.sort_by_key(|p| p.pos);
         for e in evs {
+            let seq = e["seq"].as_u64().unwrap_or(0);
             serde_json::to_writer(&mut w, &e).unwrap();
             w.write_all(b"\n").unwrap();
+            while pi < probes.len() && probes[pi].pos <= seq {
+                let mut pe = probes[pi].ev.clone();
+                pe["seq"] = json!(seq);
+                serde_json::to_writer(&mut w, &pe).unwrap();
+                w.write_all(b"\n").unwrap();
+                pi += 1;
+            }
         }
         for g in 0..=sess.generation {
             let _ = std::fs::remove_dir_all(format!("{}/{}.{}", root, id, g));
